@@ -343,6 +343,13 @@ func (s *StreamJoin) receiveRecord(ctx ExecutionContext, produce ProduceFn, myRe
 		key[i] = value
 	}
 
+	for i := range key {
+		if key[i].TypeID == octosql.TypeIDNull {
+			// An equality never holds for NULL, so this record matches nothing, now or later.
+			return nil
+		}
+	}
+
 	if !oneStreamRemains {
 		// Update count in my record tree
 		// If only one stream remains, we won't be using it anymore, so we don't need to update it.
